@@ -153,7 +153,29 @@ mutual
       let (_, r) ← expect "(args" r
       let (as, r) ← args r
       match r with
-      | "(noclosure" :: ")" :: ")" :: r => pure (.call fname st en as false [] .nil, r)
+      | "(noclosure" :: ")" :: ")" :: r =>
+        let plain : Expr := .call fname st en as false [] .nil
+        let e : Expr :=
+          if fname == "del" then
+            (match as with
+             | .cons _ q rest =>
+               let (hasC, c) : Bool × Expr := match rest with
+                 | .cons _ c _ => (true, c)
+                 | .nil => (false, .noop)
+               (match q with
+                | .qext m p => .delExt m p hasC c
+                | .qvar n p => .delVar n p hasC c
+                | .qexpr e p => .delExpr e p hasC c
+                | _ => plain)
+             | .nil => plain)
+          else if fname == "exists" then
+            (match as with
+             | .cons _ (.qext m p) .nil => .existsExt m p
+             | .cons _ (.qvar n p) .nil => .existsVar n p
+             | .cons _ (.qexpr e p) .nil => .existsExpr e p
+             | _ => plain)
+          else plain
+        pure (e, r)
       | "(closure" :: "(vars" :: r => do
         let (vs, r) ← names r
         let (_, r) ← expect "(body" r
